@@ -22,6 +22,14 @@ struct OpnVerifAccess
     static std::vector<OpnTimbre> &insCache(OPN2 &s) { return s.m_insCache; }
     static std::vector<uint8_t> &regLFOSens(OPN2 &s) { return s.m_regLFOSens; }
     static size_t &arpeggioCounter(OPNMIDIplay *p) { return p->m_arpeggioCounter; }
+    static uint8_t deviceId(OPNMIDIplay *p) { return p->m_sysExDeviceId; }
+#ifndef OPNMIDI_DISABLE_MIDI_SEQUENCER
+    static const BW_MidiRtInterface *seqInterface(OPNMIDIplay *p) { return p->m_sequencerInterface.get(); }
+    static double tempoMultiplier(BW_MidiSequencer &s) { return s.m_tempoMultiplier; }
+    static const std::vector<bool> &trackDisable(BW_MidiSequencer &s) { return s.m_trackDisable; }
+    static size_t trackSolo(BW_MidiSequencer &s) { return s.m_trackSolo; }
+    static const bool *channelDisable(BW_MidiSequencer &s) { return s.m_channelDisable; }
+#endif
 };
 
 // ---- line protocol helpers
@@ -36,3 +44,4 @@ int comp_bankmap();
 int comp_pitch();
 int comp_synth();
 int comp_audio();
+int comp_api();
